@@ -1,5 +1,6 @@
 import Goflow.Format.Formatter
 import Goflow.Spec.Bits
+import Proofs.C13
 /-!
   C14 — mapping files.
 
@@ -58,5 +59,62 @@ theorem key_function (f : Fmt) (m m' : FlowMsg) (h : ∀ s ∈ f.key, keyValue f
 /-- no key fields configured: no key -/
 theorem no_key (f : Fmt) (m : FlowMsg) (h : f.key = []) : key f m = [] := by
   unfold key; simp [h]
+
+/-! ### custom fields on the wire: what MapCustom appends is what the formatter (and any protobuf
+    reader) finds under the configured number and wire type -/
+
+theorem parseUnknown_ne (fuel : Nat) (b : Bytes) (h : b ≠ []) :
+    parseUnknown (fuel + 1) b =
+      match consumeVarint 10 b with
+      | none => []
+      | some (tag, r) =>
+        let num := tag / 8
+        let wt := tag % 8
+        if wt = 0 then
+          match consumeVarint 10 r with
+          | some (v, r') => (num, wt, FV.num v 64) :: parseUnknown fuel r'
+          | none => []
+        else if wt = 2 then
+          match consumeVarint 10 r with
+          | some (n, r') => (num, wt, FV.bytes (r'.take n)) :: parseUnknown fuel (r'.drop n)
+          | none => []
+        else [] := by
+  cases b with
+  | nil => contradiction
+  | cons x xs => rfl
+
+theorem appendVarint_ne (v : Nat) (rest : Bytes) : appendVarint v ++ rest ≠ [] := by
+  unfold appendVarint varint; split <;> simp
+
+theorem parseUnknown_nil (fuel : Nat) : parseUnknown fuel [] = [] := by cases fuel <;> rfl
+
+/-- a varint custom field: number `i`, wire type 0, the value — followed by whatever else is carried -/
+theorem custom_varint_readback (i x fuel : Nat) (rest : Bytes) (hi : i * 8 < 2 ^ 64) (hx : x < 2 ^ 64) :
+    parseUnknown (fuel + 1) (appendTag i 0 ++ appendVarint x ++ rest) = (i, 0, FV.num x 64) :: parseUnknown fuel rest := by
+  unfold appendTag
+  rw [List.append_assoc, parseUnknown_ne _ _ (appendVarint_ne _ _), Goflow.C13.varint_roundtrip _ _ (by omega)]
+  have e1 : (i * 8 + 0) / 8 = i := by omega
+  have e2 : (i * 8 + 0) % 8 = 0 := by omega
+  simp only [e1, e2, if_true]
+  rw [Goflow.C13.varint_roundtrip _ _ hx]
+
+/-- a string / bytes custom field: number `i`, wire type 2, exactly the extracted bytes -/
+theorem custom_bytes_readback (i fuel : Nat) (v rest : Bytes) (hi : i * 8 + 2 < 2 ^ 64) (hv : v.length < 2 ^ 64) :
+    parseUnknown (fuel + 1) (appendTag i 2 ++ appendVarint v.length ++ v ++ rest) = (i, 2, FV.bytes v) :: parseUnknown fuel rest := by
+  unfold appendTag
+  rw [List.append_assoc, List.append_assoc, parseUnknown_ne _ _ (appendVarint_ne _ _), Goflow.C13.varint_roundtrip _ _ hi]
+  have e1 : (i * 8 + 2) / 8 = i := by omega
+  have e2 : (i * 8 + 2) % 8 = 2 := by omega
+  simp only [e1, e2]
+  rw [Goflow.C13.varint_roundtrip _ _ hv]
+  simp
+
+/-- MapCustom into a declared varint field writes exactly such an entry behind what is already there -/
+theorem mapCustom_varint (m : FlowMsg) (v : Bytes) (dest : String) (little : Bool) (i : Nat) (arr : Bool) (x : Nat)
+    (hd : FlowMsg.kindOf dest = none) (hn : dest ≠ "sizeCache" ∧ dest ≠ "unknownFields" ∧ dest ≠ "state" ∧ dest ≠ "formatter" ∧
+      dest ≠ "skipDelimiter" ∧ dest ≠ "FlowMessage") (hi : 0 < i) (hx : endianDecode little 64 v = .ok x) :
+    mapCustom m v ⟨dest, little, i, .varint, arr⟩ = .ok { m with unk := m.unk ++ appendTag i 0 ++ appendVarint x } := by
+  unfold mapCustom
+  simp [hd, hn.1, hn.2.1, hn.2.2.1, hn.2.2.2.1, hn.2.2.2.2.1, hn.2.2.2.2.2, hi, hx]
 
 end Goflow.C14
